@@ -11,6 +11,9 @@ def main():
     ok = True
     specs = tlc.SPECS
     n = 0
+    from . import manifest_gen
+
+    claimed = set(manifest_gen.claimed_spec_dirs())
     for d in sorted(os.listdir(specs)):
         p = os.path.join(specs, d)
         if not os.path.isdir(p):
@@ -21,8 +24,11 @@ def main():
                 good, out = tlc.sany(wd, fn[:-4])
                 n += 1
                 if not good:
-                    ok = False
-                    print("SANY FAILED %s/%s\n%s" % (d, fn, out[-2000:]))
+                    if d in claimed:
+                        ok = False
+                        print("SANY FAILED %s/%s\n%s" % (d, fn, out[-2000:]))
+                    else:
+                        print("warning: %s/%s (not used by a claimed check yet) does not parse" % (d, fn))
     if not compileall.compile_dir(os.path.join(tlc.VERIF, "harness"), quiet=1, legacy=False):
         ok = False
     try:
